@@ -155,6 +155,10 @@ def _frame(ck, fx):
         last_read = [x for x in items if x[0] == "r"][-1] if items else None
         if last_read and not (L.mentions(ent, last_read[2]) and L.decode_of(ent, last_read[2]) == ("u16", "le")):
             probs.append("the final u16 does not become the entry index")
+        # `labels` is a name -> address map by design; every other field is a sequence / index read from the file
+        bad = sorted({h for k, v in st[3] if k != "labels" for h in L.REORDERING if L._has_head(v, h)})
+        if bad:
+            probs.append("a sequence of the loaded program passes through %s: order / multiplicity of the elements in the file is not preserved" % "/".join(bad))
         ck.sample({"rule": "R4.reader", "program_frame": shape})
     ck.ob("R4.reader", "program frame", not probs, "", "u16 n, Constant×n, u16 g, u16×g, u16 entry; nothing read afterwards" if not probs else "; ".join(probs))
 
@@ -191,9 +195,9 @@ def _notrailing(ck, fx, cg):
     for n, ps in walk_body(b):
         if n.get("k") == "Block":
             for st in n["block"]["stmts"]:
-                if st["k"] == "Let" and st["pat"].get("k") == "Binding" and st["pat"]["name"] == "sink":
+                if st["k"] == "Let" and st["pat"].get("k") == "Binding" and (fx.tyname(st["pat"].get("ty")) or "") == "NamedSink":
                     sink = st["pat"]["lid"]
-    if not ck.anchor("R4.notrailing", "local `sink` in the compile action", sink):
+    if not ck.anchor("R4.notrailing", "the NamedSink local of the compile action", sink):
         return
     uses = []
     for n, ps in walk_body(b):
@@ -204,6 +208,17 @@ def _notrailing(ck, fx, cg):
                     uses.append(callee_name(p) or p.get("name"))
                     break
     ck.ob("R4.notrailing", "compile action writes only through the serializer", uses == [A.get("cli.bc.serialize")], loc(b), "uses of the sink: %s" % uses)
+    # the file must contain nothing but the layout: the output file is created/truncated when opened
+    from . import shared
+    n_open = 0
+    for hb in fx.hir:
+        if hb["from_expansion"] or not hb["path"].startswith("NamedSink::"):
+            continue
+        for node, ok, how in shared.write_opens(fx, hb):
+            n_open += 1
+            ck.ob("R4.notrailing", "%s|output file is truncated on open" % hb["path"], ok, loc(node),
+                  "opened with %s%s" % (how, "" if ok else " — compiling over an older, longer file leaves its tail after the entry index (trailing bytes)"))
+    ck.floor("R4.notrailing", "output-file opens examined", n_open, 1)
     b2 = fx.body(A.get("cli.bc.serialize"))
     if ck.anchor("R4.notrailing", "BCSerializer::serialize", b2):
         calls = [callee_name(n) for n, ps in walk_body(b2) if n.get("k") in ("Call", "MethodCall") and n.get("callee") and not (callee_name(n) or "").startswith("core::panicking")]
